@@ -8,6 +8,7 @@ from ..rules_flow import forwarding, param_reaches_returns
 from .. import rules_tab as rt
 from .common import add_fwd, add_ret, add_checks, calls_in, ret_tags
 from .common import check as ob
+from ..canon import Canon, localise, each
 
 EXPLANATION = (
     'Decides: (a) the five non-`fragment` return types append exactly the projections of the Fragment the '
@@ -82,9 +83,14 @@ class _SelfSubst(ast.NodeTransformer):
         return self.generic_visit(node)
 
 
+def build_func(program) -> FuncInfo:
+    """_build_fragments with the span loop variable spelled `span` (whatever it is called in the source)"""
+    return localise(program.func(BUILD), {'span': each('spans')})
+
+
 def projections(ctx, rep, clause):
     program = ctx.program
-    f = program.func(BUILD)
+    f = build_func(program)
     frag_cls = program.cls(f'{FR}:Fragment')
     ctor = None
     for n in walk_own(f.node):
@@ -156,7 +162,7 @@ def loss_sequence(ctx, rep, clause):
     """applicable losses are decided on the bare residues of the fragment (never on the serialized text, whose
     modification names contain letters the loss patterns would match)"""
     program = ctx.program
-    f = program.func(BUILD)
+    f = build_func(program)
     aliases = single_assignments(f)
     calls = [n for n in walk_own(f.node) if isinstance(n, ast.Call) and isinstance(n.func, ast.Name) and
              n.func.id == 'get_losses']
@@ -246,11 +252,12 @@ def fragmenter_projection(ctx, rep, clause):
 
 def component_expr(f: FuncInfo) -> Optional[str]:
     """normalised expression that produces the per-residue mass components (modulo `self.`)"""
+    c = Canon(f.node, self_attrs=True)
     for n in walk_own(f.node):
         if isinstance(n, ast.Assign) and len(n.targets) == 1:
             t = norm_stmt(n.targets[0])
             if t in ('_mass_components', 'self.mass_components'):
-                return norm_stmt(n.value).replace('self.', '')
+                return c.text(n.value).replace('self.', '')
     return None
 
 
@@ -282,8 +289,9 @@ def series_routing(ctx, rep, clause):
            norm_stmt(s) for s in fr.node.body), 'same series sets as get_number',
        'fragment() no longer routes on the series sets get_number dispatches on', fr.loc(), clause)
     tf = program.func(f'{FR}:_get_terminal_fragments')
-    txt = ' '.join(norm_stmt(s) for s in tf.node.body)
-    ok = 'ion in FORWARD_ION_TYPES' in txt and 'ion in BACKWARD_ION_TYPES' in txt
+    ctf = Canon(tf.node)
+    txt = ' '.join(ctf.text(s) for s in tf.node.body)
+    ok = 'each(ion_types) in FORWARD_ION_TYPES' in txt and 'each(ion_types) in BACKWARD_ION_TYPES' in txt
     ob(rep, 'SIB-series', tf.fq, 'splits terminal types into FORWARD / BACKWARD', ok, 'prefix vs suffix spans',
        'terminal ion types are no longer split on FORWARD/BACKWARD', tf.loc(), clause)
     # forward ions get prefix spans, backward ions suffix spans
